@@ -19,6 +19,7 @@ import (
 	"math/rand"
 	"net"
 	"net/http"
+	"regexp"
 	"strconv"
 	"strings"
 	"sync"
@@ -41,6 +42,7 @@ type valD struct {
 	TErr   bool   `json:"terr,omitempty"`   // a late handler: call ctx.TimeoutErrorWithCode(Body, Status) instead of writing the response
 	LTER   bool   `json:"lter,omitempty"`   // a late handler: mutate the Response returned by ctx.LastTimeoutErrorResponse() instead
 	Hijack bool   `json:"hijack,omitempty"` // also call ctx.Hijack (on a timed-out ctx this must have no effect)
+	HijackNR bool `json:"hijacknr,omitempty"` // ... and ctx.HijackSetNoResponse(true)
 	THdr   bool   `json:"thdr,omitempty"`   // a timeout response passed to TimeoutErrorWithResponse: carries the header X-T
 	TStream int   `json:"tstream,omitempty"` // a timeout response passed to TimeoutErrorWithResponse whose body is a stream: 1 = size -1, 2 = exact size, 3 = declared 3 bytes more than it yields
 }
@@ -127,6 +129,9 @@ func (t *teeConn) Read(p []byte) (int, error) {
 func applyVal(ctx *fasthttp.RequestCtx, v valD) {
 	if v.Hijack {
 		ctx.Hijack(func(c net.Conn) { c.Write([]byte("X-Late: hijacked\r\n\r\n")) }) //nolint:errcheck
+		if v.HijackNR {
+			ctx.HijackSetNoResponse(true)
+		}
 	}
 	if v.TErr {
 		ctx.TimeoutErrorWithCode(string(v.Body), v.Status)
@@ -185,6 +190,7 @@ func runScenario(d desc) (res result) {
 	var streamCloses []*int32
 	gates := map[int]chan struct{}{}
 	dones := map[int]chan struct{}{}
+	entered := map[int]chan struct{}{}
 	lateWrites := map[int][]valD{}
 	var mu sync.Mutex
 	plans := map[string]evD{}
@@ -194,6 +200,7 @@ func runScenario(d desc) (res result) {
 			if e.RKind == "slow" {
 				gates[e.ID] = make(chan struct{})
 				dones[e.ID] = make(chan struct{})
+				entered[e.ID] = make(chan struct{})
 			}
 		}
 	}
@@ -252,6 +259,7 @@ func runScenario(d desc) (res result) {
 			}
 			applyVal(ctx, *e.Val)
 		case "slow":
+			close(entered[e.ID])
 			if e.Pre != nil {
 				applyVal(ctx, *e.Pre)
 			}
@@ -306,11 +314,13 @@ func runScenario(d desc) (res result) {
 	var brs []*bufio.Reader
 	tokens := 0
 	held := map[int]bool{}
+	dead := map[int]bool{}
 	waitTokens := func(want int) {
-		deadline := time.Now().Add(5 * time.Second)
+		deadline := time.Now().Add(3 * time.Second)
 		for fasthttp.VerifTimeoutTokens(s) != want {
 			if time.Now().After(deadline) {
-				panic(fmt.Sprintf("semaphore holds %d slots, expected %d", fasthttp.VerifTimeoutTokens(s), want))
+				// not what the scenario expects: keep going, the responses will tell (the model is told the scenario's count)
+				return
 			}
 			time.Sleep(200 * time.Microsecond)
 		}
@@ -363,22 +373,43 @@ func runScenario(d desc) (res result) {
 				held[e.ID] = true
 				tokens++
 			}
-			tc.buf.Reset()
-			if _, err := fmt.Fprintf(tc.Conn, "%s /r%d %s\r\nHost: h\r\n%s\r\n", e.Method, i, ver, extra); err != nil {
-				panic(err)
+			// A connection that stopped answering (closed, hijacked, garbage on it) is an OBSERVATION, not a harness
+			// failure: the bytes received so far are recorded as this request's response, later requests on it get none.
+			var raw []byte
+			smsg := "OK"
+			answered := false
+			if !dead[e.Conn] {
+				tc.buf.Reset()
+				if _, err := fmt.Fprintf(tc.Conn, "%s /r%d %s\r\nHost: h\r\n%s\r\n", e.Method, i, ver, extra); err == nil {
+					tc.Conn.SetReadDeadline(time.Now().Add(2 * time.Second)) //nolint:errcheck
+					resp, err := http.ReadResponse(brs[e.Conn], &http.Request{Method: e.Method})
+					if err == nil {
+						_, err = io.ReadAll(resp.Body)
+						resp.Body.Close()
+					}
+					if err == nil {
+						answered = true
+						smsg = fasthttp.StatusMessage(resp.StatusCode)
+					}
+				}
+				raw = append([]byte(nil), tc.buf.Bytes()...)
+				if !answered {
+					dead[e.Conn] = true
+				}
 			}
-			tc.Conn.SetReadDeadline(time.Now().Add(10 * time.Second)) //nolint:errcheck
-			resp, err := http.ReadResponse(brs[e.Conn], &http.Request{Method: e.Method})
-			if err != nil {
-				panic(fmt.Sprintf("event %d: reading the response: %v (got %q)", i, err, tc.buf.String()))
-			}
-			if _, err := io.ReadAll(resp.Body); err != nil {
-				panic(fmt.Sprintf("event %d: reading the body: %v", i, err))
-			}
-			resp.Body.Close()
-			raw := append([]byte(nil), tc.buf.Bytes()...)
 			res.wires[e.Conn] = append(res.wires[e.Conn], raw)
-			res.smsgs[e.Conn] = append(res.smsgs[e.Conn], fasthttp.StatusMessage(resp.StatusCode))
+			res.smsgs[e.Conn] = append(res.smsgs[e.Conn], smsg)
+			if e.RKind == "slow" && willRun && !answered {
+				// did the handler start at all?
+				select {
+				case <-entered[e.ID]:
+				case <-time.After(300 * time.Millisecond):
+					held[e.ID] = false
+					tokens--
+					close(dones[e.ID])
+					go func(g chan struct{}) { <-g }(gates[e.ID])
+				}
+			}
 			if e.RKind == "slow" && !willRun {
 				// answered 429: the handler never started; a later "late" event for it is a no-op
 				close(dones[e.ID])
@@ -401,6 +432,17 @@ func runScenario(d desc) (res result) {
 			mu.Unlock()
 			close(g)
 			<-dones[id]
+		}
+	}
+	// whatever still arrives on a connection after its last response belongs to the history of that response
+	for ci, c := range conns {
+		c.Conn.SetReadDeadline(time.Now().Add(40 * time.Millisecond)) //nolint:errcheck
+		c.buf.Reset()
+		io.Copy(io.Discard, brs[ci]) //nolint:errcheck
+		stray := c.buf.Bytes()
+		if len(stray) > 0 && len(res.wires[ci]) > 0 {
+			last := len(res.wires[ci]) - 1
+			res.wires[ci][last] = append(res.wires[ci][last], stray...)
 		}
 	}
 	for _, c := range conns {
@@ -587,27 +629,22 @@ func run(d desc) hlib.Case {
 	return hlib.Case{Coq: coq, Key: d.Key, Sig: sig, Kind: d.Tag, Size: len(d.Events)}
 }
 
-// runWithDate runs the scenario (again if the server's Date value changed meanwhile) and normalises the Date lines
+// runWithDate runs the scenario and replaces the value of every Date header line by a fixed one
 func runWithDate(d desc) result {
-	for attempt := 0; attempt < 6; attempt++ {
-		before := fasthttp.VerifServerDate()
-		res := runScenario(d)
-		after := fasthttp.VerifServerDate()
-		if res.err != "" {
-			return res
-		}
-		if !bytes.Equal(before, after) {
-			continue
-		}
-		for c := range res.wires {
-			for i := range res.wires[c] {
-				res.wires[c][i] = bytes.ReplaceAll(res.wires[c][i], []byte("\r\nDate: "+string(before)+"\r\n"), []byte("\r\nDate: "+fixedDate+"\r\n"))
-			}
-		}
+	res := runScenario(d)
+	if res.err != "" {
 		return res
 	}
-	return result{err: "server date kept changing"}
+	for c := range res.wires {
+		for i := range res.wires[c] {
+			res.wires[c][i] = dateLine.ReplaceAll(res.wires[c][i], []byte("\r\nDate: "+fixedDate+"\r\n"))
+		}
+	}
+	return res
 }
+
+// a Date header line as the server writes it (handler-controlled text here never contains CR LF)
+var dateLine = regexp.MustCompile(`\r\nDate: [A-Z][a-z]{2}, \d{2} [A-Z][a-z]{2} \d{4} \d{2}:\d{2}:\d{2} GMT\r\n`)
 
 // ---- generators -------------------------------------------------------------------------------------------------
 
@@ -685,7 +722,7 @@ func gen(r *rand.Rand, i int) desc {
 			slowBudget--
 			ev := evD{Kind: "req", Conn: c, RKind: "slow", Method: m, V10: v10, ID: nextID, Pick: r.Intn(4)}
 			if r.Intn(3) == 0 { // the handler had already built a response (also a streamed one) when the timeout fired
-				ev.Pre = &valD{Status: 200, Body: []byte("pre-" + strconv.Itoa(nextID)), Late: true, Stream: r.Intn(2) == 0, Hijack: r.Intn(4) == 0}
+				ev.Pre = &valD{Status: 200, Body: []byte("pre-" + strconv.Itoa(nextID)), Late: true, Stream: r.Intn(2) == 0, Hijack: r.Intn(4) == 0, HijackNR: r.Intn(2) == 0}
 			}
 			d.Events = append(d.Events, ev)
 			pending = append(pending, nextID)
@@ -795,6 +832,15 @@ func corpus() []desc {
 	out = append(out, desc{Cap: 4, TMsg: "t/o", SlowMs: 5, Tag: "pre-write", Events: []evD{{Kind: "open"},
 		{Kind: "req", Conn: 0, RKind: "slow", Method: "GET", ID: 0, Pre: &valD{Status: 200, Body: hlib.B("pre-streamed"), Late: true, Stream: true, Hijack: true}},
 		fast(0, "GET", "next"), late(0, lw("late")), fast(0, "GET", "end")}})
+	// ... with HijackSetNoResponse(true): the timeout response must still be sent, the connection must go on
+	for _, m := range []string{"GET", "HEAD"} {
+		out = append(out, desc{Cap: 4, TMsg: "t/o", SlowMs: 5, Tag: "pre-write", Events: []evD{{Kind: "open"},
+			{Kind: "req", Conn: 0, RKind: "slow", Method: m, ID: 0, Pre: &valD{Status: 200, Body: hlib.B("pre"), Late: true, Hijack: true, HijackNR: true}},
+			fast(0, "GET", "next"), late(0, valD{Status: 299, Body: hlib.B("late"), Late: true, Hijack: true, HijackNR: true}), fast(0, "GET", "end")}})
+		out = append(out, desc{Cap: 4, TMsg: "t/o", Tag: "pre-write", Events: []evD{{Kind: "open"},
+			{Kind: "req", Conn: 0, RKind: "self", Method: m, Val: &valD{Status: 200, Body: hlib.B("x"), Late: true, Hijack: true, HijackNR: true}, TVal: &valD{Status: 504, Body: hlib.B("gave up")}, TVr: 0},
+			fast(0, "GET", "next")}})
+	}
 	// default Concurrency (Server.Concurrency = 0)
 	out = append(out, desc{Cap: 0, TMsg: "t/o", Tag: "default-concurrency", Events: []evD{{Kind: "open"}, slow(0, "GET", 0), slow(0, "GET", 1), fast(0, "GET", "served"), late(0, lw("l0")), late(1, lw("l1"))}})
 	// a server that only ever ran ServeConn (a finding until /repo 0e1d77b: the semaphore did not exist, every call got 429)
